@@ -92,14 +92,36 @@ package builder
 //@   | && (forall v string :: {has(index, v)} old(has(index, v)) ==> has(index, v) && index[v] == old(index[v]) && lowlink[v] == old(lowlink[v]))
 //@ pred Env(edges map[string]map[string]struct{}, identified map[string]struct{}) bool = EdgeNames(edges) && Sep(edges, identified) && (forall u string :: {has(edges, u)} has(edges, u) ==> alloc(edges[u]))
 //@ pred Acc(sccs []map[string]struct{}, edges map[string]map[string]struct{}, identified map[string]struct{}) bool = SccsOK(sccs, edges) && (forall k int :: {sccs[k]} 0 <= k && k < len(sccs) ==> sccs[k] != identified)
+//@ pred InSome(sccs []map[string]struct{}, v string) bool = exists k int :: 0 <= k && k < len(sccs) && has(sccs[k], v)
+//@ pred OnStackFrom(b int, v string) bool = exists k int :: b <= k && k < len(stack) && stack[k] == v
+//@ pred NonNeg(lowlink map[string]int) bool = forall v string :: {has(lowlink, v)} has(lowlink, v) ==> lowlink[v] >= 0
 //@ func StronglyConnectedComponents$dfs(edges map[string]map[string]struct{}, identified map[string]struct{}, index map[string]int, lowlink map[string]int, vertex string) (sccs []map[string]struct{})
 //@   requires [maps] identified != nil && index != nil && lowlink != nil && index != lowlink
 //@   requires [env] Env(edges, identified)
 //@   requires [new] !has(index, vertex)
 //@   requires [names] vertex != ""
 //@   requires [stack-names] forall k int :: {stack[k]} 0 <= k && k < len(stack) ==> stack[k] != ""
+//@   requires [nonneg] NonNeg(lowlink)
 //@   modifies stack, mapof(identified), mapof(index), mapof(lowlink)
-//@   ensures [grow C07 C13] len(stack) >= old(len(stack)) && forall k int :: {stack[k]} 0 <= k && k < old(len(stack)) ==> stack[k] == old(stack[k])
+// coverage (C07: no vertex is dropped from the analysis): a vertex is popped into a component exactly when its
+// lowlink equals its index, lowlinks never exceed the index and never become negative, identified vertices stay so
+//@   ensures [nonneg C07] NonNeg(lowlink)
+//@   ensures [low-le C07] has(lowlink, vertex) && lowlink[vertex] <= index[vertex] && index[vertex] == old(len(stack))
+//@   ensures [popped C07] (len(stack) == old(len(stack)) ==> has(identified, vertex)) && (len(stack) > old(len(stack)) ==> lowlink[vertex] < index[vertex])
+//@   ensures [identified-grows C07] forall v string :: {has(identified, v)} old(has(identified, v)) ==> has(identified, v)
+//@   ensures [newly-identified C07] forall v string :: {has(identified, v)} has(identified, v) && !old(has(identified, v)) ==> InSome(sccs, v)
+// every vertex indexed during the call is identified, or still on the stack at or above the call's own position
+//@   ensures [accounted C07] forall v string :: {has(index, v)} has(index, v) && !old(has(index, v)) ==> has(identified, v) || OnStackFrom(old(len(stack)), v)
+//@   loop#1 invariant [acct C07] forall v string :: {has(index, v)} has(index, v) && !old(has(index, v)) ==> has(identified, v) || OnStackFrom(old(len(stack)), v)
+//@   loop#2 invariant [acct C07] (forall v string :: {has(index, v)} has(index, v) && !old(has(index, v)) ==> has(identified, v) || OnStackFrom(old(len(stack)), v)) && len(coll2) == len(stack) - old(len(stack)) && (forall j int :: {stack[j]} old(len(stack)) <= j && j < old(len(stack)) + idx2 ==> has(scc, stack[j]))
+//@   loop#3 invariant [acct C07] forall v string :: {has(index, v)} has(index, v) && !old(has(index, v)) ==> has(identified, v) || has(scc, v)
+//@   loop#1 invariant [new-id C07] forall v string :: {has(identified, v)} has(identified, v) && !old(has(identified, v)) ==> InSome(sccs, v)
+//@   loop#2 invariant [new-id C07] forall v string :: {has(identified, v)} has(identified, v) && !old(has(identified, v)) ==> InSome(sccs, v)
+//@   loop#3 invariant [new-id C07] forall v string :: {has(identified, v)} has(identified, v) && !old(has(identified, v)) ==> InSome(sccs, v) || has(scc, v)
+//@   loop#1 invariant [cover C07] NonNeg(lowlink) && lowlink[vertex] <= index[vertex] && (forall v string :: {has(identified, v)} old(has(identified, v)) ==> has(identified, v))
+//@   loop#2 invariant [cover C07] NonNeg(lowlink) && has(lowlink, vertex) && lowlink[vertex] == index[vertex] && (forall v string :: {has(identified, v)} old(has(identified, v)) ==> has(identified, v))
+//@   loop#3 invariant [cover C07] NonNeg(lowlink) && has(lowlink, vertex) && lowlink[vertex] == index[vertex] && (forall v string :: {has(identified, v)} old(has(identified, v)) ==> has(identified, v)) && has(scc, vertex) && (forall x string :: {sel(visited3, x)} sel(visited3, x) ==> has(identified, x))
+//@   ensures [grow C07 C13] len(stack) >= old(len(stack)) && forall k int :: {stack[k]} {old(stack[k])} 0 <= k && k < old(len(stack)) ==> stack[k] == old(stack[k])
 //@   ensures [new-live C07] forall k int :: {stack[k]} old(len(stack)) < k && k < len(stack) ==> LiveV(edges, stack[k])
 //@   ensures [kept-live C07] len(stack) > old(len(stack)) ==> stack[old(len(stack))] == vertex && LiveV(edges, vertex)
 //@   ensures [stack-names C07] forall k int :: {stack[k]} 0 <= k && k < len(stack) ==> stack[k] != ""
@@ -126,6 +148,10 @@ package builder
 //@   ensures [live C07 C13] forall k int, v string :: {has(sccs[k], v)} 0 <= k && k < len(sccs) && has(sccs[k], v) && len(sccs[k]) > 1 ==> has(edges, v) && len(edges[v]) >= 1
 //@   ensures [fresh C07] forall k int :: {sccs[k]} 0 <= k && k < len(sccs) ==> fresh(sccs[k])
 //@   ensures [names C07] forall k int :: {sccs[k]} 0 <= k && k < len(sccs) ==> !has(sccs[k], "")
+// no vertex is dropped: every vertex handed in belongs to one of the components returned (C07: a rule that is in no
+// component would never be examined for left recursion)
+//@   ensures [covers C07] forall j int :: {vertices[j]} 0 <= j && j < len(vertices) ==> InSome(sccs, vertices[j])
+//@   loop#4 invariant [cover C07] len(stack) == 0 && NonNeg(lowlink) && (forall v string :: {has(index, v)} has(index, v) ==> has(identified, v)) && (forall v string :: {has(identified, v)} has(identified, v) ==> InSome(sccs, v)) && (forall j int :: {vertices[j]} 0 <= j && j < idx4 ==> has(index, vertices[j]))
 //@   loop#4 invariant [acc C07 C13] Acc(sccs, edges, identified) && Env(edges, identified) && identified != nil && index != nil && lowlink != nil && index != lowlink && fresh(identified) && fresh(index) && fresh(lowlink) && (forall k int :: {stack[k]} 0 <= k && k < len(stack) ==> stack[k] != "")
 //@   safety C13
 
